@@ -108,6 +108,20 @@ def traced_parse(doc, headers=None, loose=False, **kw):
         log.append({"k": "date", "value": value, "result": tuple(r) if r else None})
         return r
     real_res, real_san, real_b64 = mixin.resolve_relative_uris, mixin.sanitize_html, mixin.base64
+    real_email = mixin.email_pattern
+
+    class EmailSpy:
+        # stage 7: what email_pattern.search(author) answered (group(0)) -- a parameter of the model
+        pattern = real_email.pattern
+
+        @staticmethod
+        def search(s, *a):
+            m = real_email.search(s, *a)
+            log.append({"k": "email", "arg": s, "result": m.group(0) if m else None})
+            return m
+
+        def __getattr__(self, name):
+            return getattr(real_email, name)
 
     def res_spy(*a, **k):
         r = real_res(*a, **k)
@@ -138,7 +152,7 @@ def traced_parse(doc, headers=None, loose=False, **kw):
         with mock.patch.object(api, "StrictFeedParser", S), mock.patch.object(api, "LooseFeedParser", L), \
                 mock.patch.object(mixin, "_urljoin", join_spy), mock.patch.object(nsbase, "_parse_date", date_spy), \
                 mock.patch.object(mixin, "resolve_relative_uris", res_spy), mock.patch.object(mixin, "sanitize_html", san_spy), \
-                mock.patch.object(mixin, "base64", B64), warnings.catch_warnings():
+                mock.patch.object(mixin, "base64", B64), mock.patch.object(mixin, "email_pattern", EmailSpy()), warnings.catch_warnings():
             warnings.simplefilter("ignore")
             try:
                 r = feedparser.parse(doc, response_headers=headers, **kw)
